@@ -124,6 +124,17 @@ func (w *faultFile) Close() error {
 	return w.VerifFile.Close()
 }
 
+// tmpBase prefers a memory-backed directory (hundreds of databases are created
+// and removed per run); "" is the system default.
+func tmpBase() string {
+	if os.Getenv("TMPDIR") == "" {
+		if st, err := os.Stat("/dev/shm"); err == nil && st.IsDir() {
+			return "/dev/shm"
+		}
+	}
+	return ""
+}
+
 // ---------------------------------------------------------------- db handle
 
 type dbh struct {
@@ -202,13 +213,23 @@ func copyDir(src, dst string) error {
 // crash image).  strict: appended block-file data that was never fsynced is
 // dropped from the image.
 func (h *dbh) snapshotDir(strict bool) string {
-	dst, err := os.MkdirTemp("", "c05-img-")
+	dst, err := os.MkdirTemp(tmpBase(), "c05-img-")
 	if err != nil {
 		panic(err)
 	}
 	h.tmps = append(h.tmps, dst)
-	if err := copyDir(h.dir, dst); err != nil {
-		panic(err)
+	// leveldb's background goroutines may remove an obsolete file while the
+	// directory is being walked; copy again in that case
+	for try := 0; ; try++ {
+		err := copyDir(h.dir, dst)
+		if err == nil {
+			break
+		}
+		if try == 5 {
+			panic(err)
+		}
+		_ = os.RemoveAll(dst)
+		time.Sleep(5 * time.Millisecond)
 	}
 	if strict {
 		files, _ := filepath.Glob(filepath.Join(dst, "*.fdb"))
@@ -349,7 +370,7 @@ func execDb(args []string) (out string) {
 	if len(args) < 2 {
 		return "bad-op"
 	}
-	dir, err := os.MkdirTemp("", "c05-db-")
+	dir, err := os.MkdirTemp(tmpBase(), "c05-db-")
 	if err != nil {
 		panic(err)
 	}
